@@ -217,6 +217,11 @@ def run_tlc(
         if m:
             res.generated = int(m.group(1).replace(",", ""))
             res.distinct = int(m.group(2).replace(",", ""))
+        else:
+            m = re.search(r"The number of states generated: (\d+)", text)      # simulation mode
+            if m:
+                res.generated = int(m.group(1))
+                res.distinct = n
         m = re.search(r"The depth of the complete state graph search is (\d+)", text)
         if m:
             res.depth = int(m.group(1))
